@@ -35,6 +35,8 @@ const (
 	tracebackLen  = 32
 	tracebackStop = "pgregory.net/rapid.checkOnce"
 	runtimePrefix = "runtime."
+
+	lateFailureTraceback = "    <test case failed without stopping>\n"
 )
 
 var (
@@ -332,6 +334,7 @@ func findBug(tb tb, deadline time.Time, checks int, seed uint64, prop func(*T)) 
 
 		seed += uint64(iter)
 		r.init(seed)
+		t.draws = 0 // T is reused, but test cases should not depend on each other
 		start := time.Now()
 		if t.shouldLog() {
 			t.Logf("[rapid] test #%v start (seed %v)", iter+1, seed)
@@ -365,7 +368,13 @@ func checkOnce(t *T, prop func(*T)) (err *testError) {
 	if t.tbLog {
 		t.tb.Helper()
 	}
-	defer func() { err = panicToError(recover(), 3) }()
+	defer func() {
+		err = panicToError(recover(), 3)
+		if failed := t.resetFailed(); failed != "" && (err == nil || err.isInvalidData()) {
+			// non-fatal failure was signalled by a cleanup function, or was followed by skipping the test case
+			err = &testError{data: failed, traceback: lateFailureTraceback}
+		}
+	}()
 
 	defer t.cleanup()
 	prop(t)
@@ -780,6 +789,17 @@ func (t *T) fail(now bool, msg string) {
 	if now {
 		panic(t.failed)
 	}
+}
+
+// resetFailed clears the non-fatal failure of the current test case (if any) and returns it.
+func (t *T) resetFailed() stopTest {
+	t.mu.Lock()
+	defer t.mu.Unlock()
+
+	failed := t.failed
+	t.failed = ""
+
+	return failed
 }
 
 func (t *T) failOnError() {
